@@ -52,7 +52,9 @@ prop("C19", ["contracts.c19_p402"],
               "reaches the drive at transmit() (event-driven) or before the next TPDO (periodic), every TPDO reception runs the node's "
               "on_TPDOs_update_callback; the cached statusword is current when the assignment starts",
               "operation mode carried by PDO (OpModePdo): 6060h in an RPDO / 6061h in a TPDO over env/drive402.py ModeLink, event-driven or "
-              "periodic; the drive displays the mode it was given; the cached display is current when the assignment starts"],
+              "periodic; the drive displays the mode it was given; the cached display is current when the assignment starts",
+              "A8 frozen clock with patience: the conformant drive answers before any deadline; a call that has read the clock 200 times "
+              "without finishing is past every deadline (SetState, SetStatePdo, OpModePdo) - so a stalled wait ends by the library's own time-out"],
      not_decided=["time-outs in real time; automatic transitions with the PDO transport; a stale cached statusword / mode display at the start of an "
                   "assignment (PDO transport)"])
 
